@@ -820,7 +820,7 @@ def interesting_times(ctx):
             ts += [t0, t0 - 1]
             if m == 2:
                 ts += [t0 + 27 * 86400, t0 + 28 * 86400, t0 + 29 * 86400 - 1]
-    n = 100000 if ctx.quick else 800000
+    n = 80000 if ctx.quick else 800000
     for _ in range(n):
         r = rng.random()
         if r < 0.5:
@@ -933,13 +933,13 @@ def run(ctx):
         ctx.broken.append({"kind": "harness-build", "names": [HARNESS], "log": err[-3000:]})
         return
     q = ctx.quick
-    rng_lines = gen_rng(ctx, 220000 if q else 1800000)
+    rng_lines = gen_rng(ctx, 160000 if q else 1800000)
     ctx.differential("range(rfc7233 over chunk queues)", [exe], MODEL, rng_lines, oracle, classify)
-    parse_lines = gen_parse(ctx, 150000 if q else 1200000)
+    parse_lines = gen_parse(ctx, 120000 if q else 1200000)
     ctx.differential("range(parse/coalesce, large lengths)", [exe], MODEL, parse_lines, oracle, classify)
-    etag_lines = gen_etag(ctx, 150000 if q else 1000000)
+    etag_lines = gen_etag(ctx, 120000 if q else 1000000)
     ctx.differential("etag(http_etag_matches)", [exe], MODEL, etag_lines, oracle, classify)
-    cond_lines = gen_cond(ctx, 100000 if q else 800000)
+    cond_lines = gen_cond(ctx, 80000 if q else 800000)
     ctx.differential("cond(http_response_handle_cachable)", [exe], MODEL, cond_lines, oracle, classify)
     fmt, parse, misc = gen_dates(ctx)
     ctx.differential("date(http_date_time_to_str)", [exe], MODEL, fmt, oracle, classify)
